@@ -172,7 +172,7 @@ PROPS['C16'] = {
 }
 
 PROPS['C07'] = {
-    'sidecars': ['contracts/C07_acks.py'],
+    'sidecars': ['contracts/C07_media.py'],          # imports C07_acks -> C08_iq
     'level': 'other',
     'explanation': 'Discharged for all stanzas (symbolic node: any tag, attributes, children): notifications layer - every non-raising path of '
                    'recvNotification ends with exactly one ack carrying id, class notification, type, sender (to) and participant, the only '
@@ -183,7 +183,11 @@ PROPS['C07'] = {
                    'text nor a pure key distribution -> exactly one receipt (id, to, participant), key-distribution-only payloads surface '
                    'nothing.  The REAL ack / receipt / pong / iq entity classes are executed symbolically (constructors, inheritance, '
                    'setAttribute).  NOT decided here: the composition over the parallel protocol layers of the full stack (that no second '
-                   'layer also answers) and the media layer receipt for unsupported media types: level other.',
+                   'layer also answers: C06): level other.  Media layer (contracts/C07_media.py): a media message of a type the library '
+                   'cannot present -> exactly one receipt, the read-acknowledgement of the entity parsed from this stanza, nothing upward; a '
+                   'presentable type -> delivered once, no receipt from here; MessageProtocolEntity.ack (scenario over the real classes): the '
+                   'receipt names this message (id), goes to its sender, carries the participant of a group message, is a read receipt '
+                   'exactly when asked for one.',
     'native_checks': [{'name': 'c07_cross_check', 'role': 'cross-check', 'cmd': ['-m', 'pyvc.native', 'searchall', 'contracts/C07_acks.py'],
                        'bound': 'the real handlers recvNotification / recvCall / recvIq under the same contracts, with the REAL entity parsers '
                                 '(fromProtocolTreeNode) called through instead of abstracted: generated stanzas (8 notification types incl. '
